@@ -226,9 +226,12 @@ Proof.
       + eapply triple_weaken; [apply (finish_block_fin Inv2)|intros; exact Logic.I|intros xx w0 H; apply fin_inv2, H|intros w0 H; exact H]. }
   intros changed.
   eapply triple_bind.
-  { apply inv2_keeps_triple. apply keeps_modify. intros w0. destruct w0; reflexivity. }
+  { apply inv2_keeps_triple. apply keeps_when. apply keeps_modify. intros w0. destruct w0; reflexivity. }
   intros ?.
   eapply triple_bind; [apply inv2_keeps_triple, kl_deliver|]. intros ?.
+  eapply triple_bind.
+  { apply inv2_keeps_triple. apply keeps_when. apply keeps_modify. intros w0. destruct w0; reflexivity. }
+  intros ?.
   destruct changed as [m|]; [|apply inv2_keeps_triple, keeps_ret].
   apply inv2_keeps_triple. apply keeps_mfor. intros kv. apply kl_notify.
 Qed.
@@ -239,6 +242,7 @@ Section AllOps.
 Variable I : iface.
 Variable sw : switches.
 Hypothesis Hfirst : sw_cont_check_first sw = true.
+Hypothesis Hdec : sw_counter_dec_first sw = true.
 Notation Inv2 := (Inv2).
 
 Definition Pres {A} (m : M A) : Prop := triple Inv2 m (fun _ => Inv2) Inv2.
@@ -363,7 +367,7 @@ Theorem invariant_preserved : forall ops w,
 Proof.
   induction ops as [|op r IH]; intros w [H0 H2] Hnp; cbn [run_story_ops]; [split; assumption|].
   destruct Hnp as [Hp Hr]. apply IH; [|exact Hr].
-  pose proof (story_ops_balanced I sw Hfirst op 0 w H0) as Hb.
+  pose proof (story_ops_balanced I sw Hfirst Hdec op 0 w H0) as Hb.
   pose proof (story_ops_preserve_inv2 op w H2) as Hi.
   destruct (run_story_op I sw op w) as [[x|k e|s] w'] eqn:E; cbn [snd fst] in *.
   - split; assumption.
